@@ -5,6 +5,7 @@ use super::kani;
 use super::env::all_fixed;
 use super::env::at_lb;
 use super::env::protocol;
+use super::env::protocol_no_covers;
 use super::env::verif_harness;
 use super::env::Change;
 use super::monitor;
@@ -34,7 +35,7 @@ fn sem_element(len: usize, at: fn(usize) -> i64) -> bool {
     holds
 }
 
-fn element(len: usize, holes: usize, changes: &[Change]) {
+fn element(len: usize, holes: usize, changes: &[Change], covers: bool) {
     let n = len + 2;
     let mut propagator =
         ElementPropagator::new((1..=len).map(id).collect::<Vec<_>>().into(), id(len + 1), id(len + 2));
@@ -42,8 +43,13 @@ fn element(len: usize, holes: usize, changes: &[Change]) {
         monitor::PROPAGATOR = Some(&mut propagator as *mut _ as *mut dyn Propagator);
     }
     monitor::set_semantics(sem_element(len, monitor::v), sem_element(len, monitor::w));
-    let outcome = protocol(&mut propagator, n, changes, false, 1);
-    kani::cover!(unsafe { monitor::LAZY_RESOLVED } > 0, "lazy reason resolved");
+    let outcome = if covers {
+        let outcome = protocol(&mut propagator, n, changes, false, 1);
+        kani::cover!(unsafe { monitor::LAZY_RESOLVED } > 0, "lazy reason resolved");
+        outcome
+    } else {
+        protocol_no_covers(&mut propagator, n, changes, false, 1)
+    };
     if outcome.ok && !outcome.pending && all_fixed(n) {
         assert!(
             sem_element(len, at_lb),
@@ -70,9 +76,10 @@ fn element_domains(len: usize, holes: usize) {
 verif_harness! {
     #[kani::unwind(4)]
     fn element_2() {
+
         element_domains(2, 0);
         monitor::pick_points(4);
-        element(2, 0, &[]);
+        element(2, 0, &[], false);
     }
 }
 
@@ -81,7 +88,7 @@ verif_harness! {
     fn element_2_index_hole() {
         element_domains(2, 1);
         monitor::pick_points(4);
-        element(2, 1, &[]);
+        element(2, 1, &[], true);
     }
 }
 
@@ -91,6 +98,31 @@ verif_harness! {
         element_domains(2, 0);
         monitor::pick_points(4);
         let changes = [Change::any(4)];
-        element(2, 0, &changes);
+        element(2, 0, &changes, true);
+    }
+}
+
+verif_harness! {
+    #[kani::unwind(3)]
+    fn element_1() {
+
+        // the smallest instance: every rule (index bounds, rhs bounds with lazy reasons, index
+        // filtering, equality once the index is fixed) is still exercised
+        element_domains(1, 0);
+        monitor::pick_points(3);
+        element(1, 0, &[], false);
+    }
+}
+
+verif_harness! {
+    #[kani::unwind(3)]
+    fn element_1_reach() {
+        // Vacuity witness for the element harnesses: concrete domains that satisfy every
+        // assumption of the symbolic harnesses, on which the cover points are reachable.
+        shadow::init_range(1, 3, 5, 0);
+        shadow::init_range(2, -1, 2, 0);
+        shadow::init_range(3, 0, 10, 0);
+        monitor::pick_points(3);
+        element(1, 0, &[], true);
     }
 }
